@@ -582,7 +582,7 @@ func runConfig(cfg childCfg, nConv int, replay []conversation) {
 		}
 		if done == 0 && replay == nil {
 			// the deterministic boundary family goes first
-			for _, cv := range boundaryConversations(sd) {
+			for _, cv := range append(boundaryConversations(sd), refusedConversations(sd)...) {
 				cv.ID = id
 				id++
 				convs = append(convs, cv)
